@@ -879,7 +879,7 @@ func ruleC02R6(c *Ctx) {
 		}
 	}
 	n := len(c.whoMayCall("C02.R6", "collectLeftovers", anchorPred(aCollect), aResend, aProcInput))
-	c.floor("C02.R6", "collectLeftovers sites", n, 5)
+	c.floor("C02.R6", "collectLeftovers sites", n, 3)
 
 	// order inside collectLeftovers
 	cl := c.P.Fn(aCollect)
